@@ -120,6 +120,9 @@ func usePkg(pi *pkgInfo) {
 			}
 		}
 	}
+	for _, fname := range sortedKeys(pi.files) {
+		foldIndexConsts(pi.files[fname])
+	}
 }
 
 // isConstIdent: an identifier that names a package-level integer constant
@@ -419,10 +422,13 @@ func (en *env) trBinary(t *ast.BinaryExpr, want kind) (string, kind) {
 			k = want
 		}
 		a, _ := en.tr(t.X, k)
-		if !isLit(t.Y) {
+		if !isLit(t.Y) && !isConstIdent(unparenExpr(t.Y)) {
 			bail("shift by a non-literal")
 		}
 		var n uint64
+		if id, ok := unparenExpr(t.Y).(*ast.Ident); ok {
+			n = pkgConsts[id.Name].val
+		}
 		ast.Inspect(t.Y, func(nd ast.Node) bool {
 			if bl, ok := nd.(*ast.BasicLit); ok {
 				n = parseIntLit(bl.Value)
@@ -522,11 +528,40 @@ func substExpr(e ast.Expr, sub map[string]ast.Expr) ast.Expr {
 		for i, a := range t.Args {
 			args[i] = substExpr(a, sub)
 		}
-		return &ast.CallExpr{Fun: t.Fun, Args: args}
+		fun := t.Fun
+		if id, ok := fun.(*ast.Ident); ok {
+			if r, ok := sub[id.Name]; ok { // a function-valued parameter: `round(x)` with round := math.Ceil
+				fun = r
+			}
+		}
+		return &ast.CallExpr{Fun: fun, Args: args}
 	case *ast.IndexExpr:
 		return &ast.IndexExpr{X: substExpr(t.X, sub), Index: substExpr(t.Index, sub)}
 	}
 	return e
+}
+
+// straightLineResult: the body is `S1; …; Sk; return E` with no other return statement
+func straightLineResult(fd *ast.FuncDecl) ([]ast.Stmt, ast.Expr, bool) {
+	n := len(fd.Body.List)
+	if n < 2 {
+		return nil, nil, false
+	}
+	rs, ok := fd.Body.List[n-1].(*ast.ReturnStmt)
+	if !ok || len(rs.Results) != 1 {
+		return nil, nil, false
+	}
+	clean := true
+	for _, st := range fd.Body.List[:n-1] {
+		ast.Inspect(st, func(nd ast.Node) bool {
+			switch nd.(type) {
+			case *ast.ReturnStmt, *ast.FuncLit, *ast.ForStmt, *ast.RangeStmt, *ast.DeferStmt, *ast.GoStmt:
+				clean = false
+			}
+			return clean
+		})
+	}
+	return fd.Body.List[:n-1], rs.Results[0], clean
 }
 
 func substStmt(s ast.Stmt, sub map[string]ast.Expr) ast.Stmt {
@@ -701,6 +736,30 @@ func (ri *recvInliner) stmts(list []ast.Stmt) []ast.Stmt {
 			for i, r := range t.Rhs {
 				rhs[i] = ri.expr(r)
 			}
+			// `v := recv.m(args)` where m is `S1; …; Sk; return E`: the callee's statements with the
+			// arguments substituted for its parameters, then `v := E`
+			if len(t.Lhs) == 1 && len(rhs) == 1 && (t.Tok == token.DEFINE || t.Tok == token.ASSIGN) && ri.depth < 4 {
+				if target, ok := t.Lhs[0].(*ast.Ident); ok {
+					if fd, args := ri.siblingCall(rhs[0]); fd != nil {
+						if body, res, ok := straightLineResult(fd); ok {
+							sub := map[string]ast.Expr{}
+							for i, pn := range paramNames(fd) {
+								sub[pn] = args[i]
+							}
+							ri.depth++
+							for _, st := range body {
+								out = append(out, ri.stmts([]ast.Stmt{substStmt(st, sub)})...)
+							}
+							r := ri.expr(substExpr(res, sub))
+							ri.depth--
+							if id, ok := unparenExpr(r).(*ast.Ident); !ok || id.Name != target.Name {
+								out = append(out, &ast.AssignStmt{Lhs: t.Lhs, Tok: t.Tok, Rhs: []ast.Expr{r}})
+							}
+							continue
+						}
+					}
+				}
+			}
 			out = append(out, &ast.AssignStmt{Lhs: t.Lhs, Tok: t.Tok, Rhs: rhs})
 		case *ast.IfStmt:
 			n := &ast.IfStmt{Init: t.Init, Cond: ri.expr(t.Cond), Body: &ast.BlockStmt{List: ri.stmts(t.Body.List)}}
@@ -728,4 +787,44 @@ func inlineSiblingCalls(pi *pkgInfo, recvType string, fd *ast.FuncDecl) []ast.St
 		return fd.Body.List
 	}
 	return ri.stmts(fd.Body.List)
+}
+
+func unparenExpr(e ast.Expr) ast.Expr {
+	for {
+		p, ok := e.(*ast.ParenExpr)
+		if !ok {
+			return e
+		}
+		e = p.X
+	}
+}
+
+// foldIndexConsts replaces, in index and slice-bound positions, identifiers that name package-level
+// integer constants by their values (`h[flagsOffset]` is `h[2]`, `h[seqOffset:]` is `h[4:]`)
+func foldIndexConsts(n ast.Node) {
+	fold := func(e ast.Expr) ast.Expr {
+		if id, ok := unparenExpr(e).(*ast.Ident); ok {
+			if c, ok := pkgConsts[id.Name]; ok {
+				return &ast.BasicLit{Kind: token.INT, Value: strconv.FormatUint(c.val, 10)}
+			}
+		}
+		return e
+	}
+	ast.Inspect(n, func(nd ast.Node) bool {
+		switch t := nd.(type) {
+		case *ast.IndexExpr:
+			t.Index = fold(t.Index)
+		case *ast.SliceExpr:
+			if t.Low != nil {
+				t.Low = fold(t.Low)
+			}
+			if t.High != nil {
+				t.High = fold(t.High)
+			}
+			if t.Max != nil {
+				t.Max = fold(t.Max)
+			}
+		}
+		return true
+	})
 }
